@@ -557,7 +557,7 @@ pub fn main(ctx: Ctx) -> ! {
         replay(ctx, &case);
     }
     // Subset bounds: empty base; healthy base for CH; healthy base for IN.
-    let (k_all, k_deep_ch, k_deep_in) = ctx.pick((3, 4, 4), (4, 5, 6));
+    let (k_all, k_deep_ch, k_deep_in) = ctx.pick((3, 4, 5), (4, 5, 6));
     let mut families = Vec::new();
     for class in [c::IN, c::CH, c::HS] {
         for wide in [false, true] {
